@@ -191,6 +191,9 @@ namespace
                 auto               b = make(r);
                 std::vector<memory_block> st;
                 false_report_guard frg;
+                // a LIFO-only source that reports a release in exact reverse order of acquisition has lost track of its blocks: that is
+                // C05's "given back in reverse order, with the same address and size" seen from the source's side
+                also_scope as("C05", "C16");
                 using B = typename std::decay<decltype(*b)>::type;
                 while (cx().step < a.ops)
                 {
